@@ -918,3 +918,63 @@ def iv_points_concrete(p, m):
         return not bad, '; '.join(bad[:3])
     finally:
         mp.prec, iv.prec = old, oldiv
+
+
+# ------------------------------------------------------------------------------ _wrap_specfun: the wrapped special functions round their result
+def specfun_wrap(p):
+    """f_wrapped (the closure _wrap_specfun builds around every @defun_wrapped special function: convert arguments, work at
+    prec+10, restore, return +retval): with the wrapped function replaced by a stub returning an ARBITRARY mpf (resp. mpc) of
+    up to prec+10 bits, the value handed back has at most prec bits and the context precision is restored."""
+    from pysym.engine import NORMAL
+    name, prec, kind = p['name'], p['prec'], p.get('kind', 'mpf')
+    mp = _ctx(prec)
+    f = getattr(mp, name)
+    fw = getattr(f, '__func__', f)
+    if fw.__name__ != 'f_wrapped':
+        raise Unsupported('%s is not wrapped by _wrap_specfun' % name)
+    inner = [c.cell_contents for c in fw.__closure__ if callable(getattr(c, 'cell_contents', None))]
+    if len(inner) != 1:
+        raise Unsupported('cannot identify the wrapped function')
+    ob = Ob(wbump(p, prec + 90), timeout_s=p.get('_t', 60))
+    a = ob.mpf('r', prec + 10)
+    b = ob.mpf('i', prec + 7)
+    seen = []
+
+    def stub(eng, st, args, kw, fr):
+        seen.append(1)
+        return [(st, NORMAL, mp.make_mpf(a) if kind == 'mpf' else mp.make_mpc((a, b)))]
+    ob.eng.models[inner[0]] = stub
+    outs = ob.run(f, [mp.make_mpf((0, 5, -2, 3))])
+
+    def good(val, st):
+        if kind == 'mpf':
+            if not isinstance(val, mp.mpf):
+                return False
+            h = st.heap.get((id(val), '_mpf_'))
+            parts = [h[1] if h is not None else val._mpf_]
+        else:
+            if not isinstance(val, mp.mpc):
+                return False
+            h = st.heap.get((id(val), '_mpc_'))
+            parts = list(h[1] if h is not None else val._mpc_)
+        hp = st.heap.get((id(mp), '_prec'))
+        restored = hp is None or (not isinstance(hp[1], SInt) and hp[1] == prec)
+        return [z3.BoolVal(bool(seen) and restored)] + [canonical(t, prec) for t in parts]
+    return finish(ob, ob.prove(outs, good))
+
+
+def specfun_wrap_concrete(p, m):
+    name, prec = p['name'], p['prec']
+    mp = _ctx(prec)
+    try:
+        for x in (1.25, 0.3, 2.5):
+            try:
+                r = getattr(mp, name)(x)
+            except Exception:
+                continue
+            parts = [r._mpf_] if hasattr(r, '_mpf_') else list(r._mpc_)
+            if any(t[3] > prec for t in parts) or mp.prec != prec:
+                return False, 'mp.%s(%r) at prec %d returned %s bits, precision afterwards %d' % (name, x, prec, [t[3] for t in parts], mp.prec)
+        return None, 'UNCONFIRMED'
+    finally:
+        mp.prec = 53
